@@ -15,7 +15,7 @@ LEVEL = "model_checking"
 LEVEL_TEXT = ("Explicit enumeration of `.if` programs (18 condition kinds: 0/1/2/-1 as literal, := constant, macro parameter, constant "
               "expression, undefined name alone and inside an expression) x else present/absent x 7 then-bodies (incl. a label used after the .if and a := override) x 4 else-bodies x 4 placements (top level, block, "
               "macro body, loop body) and `.for` programs (all bound pairs over {-2,0,1,3}^2, bounds from := constants, macro "
-              "parameters and expressions) x 8 bodies (empty expansion, data over v, lda.b v, label + reference, nested loop over v*2+w, conditional, "
+              "parameters and expressions) x 9 bodies (empty expansion, := shadowing inside the body, data over v, lda.b v, label + reference, nested loop over v*2+w, conditional, "
               "macro call with v, mixed) x 3 placements x 3 nestings (plain, inside a conditional, inside another loop; thorough: bound pairs over 9 values). Each program is assembled by the real "
               "assembler and compared with (a) the reference expansion and (b) its hand-expanded twin (selected branch spliced in; "
               "`{ v = k ... }` per iteration) run through the same assembler. Tests check one true, one false condition and one loop.")
@@ -34,7 +34,7 @@ DIRECT = ("", "", "")
 ORG = 0x018000
 NN = ("macro", "nn", ["x"], [("data", "db", [S("x")])])
 CONSTS = [("const", "kc", N(1)), ("const", "k0", N(0)), ("const", "k2", N(2)), ("const", "kn", ("u", "-", N(1))),
-          ("const", "ka", N(1)), ("const", "kb", N(3)), ("const", "kq", N(1))]
+          ("const", "ka", N(1)), ("const", "kb", N(3)), ("const", "kq", N(1)), ("const", "acc", N(0))]
 
 # condition kind -> (expression in the program, value, how it is supplied)
 COND = {
@@ -73,6 +73,8 @@ FOR_BODIES = {
     "call": [("call", "nn", [S("vv")])],
     "mixed": [("data", "db", [S("vv")]), ("label", "fl"), ("data", "dl", [S("fl")]), ("data", "db", [("b", "+", S("vv"), N(1))])],
     "empty": [("if", S("k0"), [("data", "db", [S("vv")])], None)],  # every iteration expands to nothing
+    # expansion-time state inside the body: a := in an iteration's scope shadows the outer constant for that iteration only
+    "shadow-const": [("const", "acc", ("b", "+", S("acc"), N(1))), ("data", "db", [S("acc")]), ("if", S("acc"), [("data", "db", [N(0x5C)])], None)],
 }
 FOR_PLACES = ["top", "block", "macro"]
 VALS = [-2, 0, 1, 3]
@@ -80,7 +82,7 @@ VALS_T = [-3, -2, -1, 0, 1, 2, 3, 5, 8]
 
 
 def bound(tier):
-    return ("IF: 18 condition kinds x else on/off x 7 then x 4 else bodies x 4 placements; FOR: (16 literal bound pairs + 5 symbolic) x 8 "
+    return ("IF: 18 condition kinds x else on/off x 7 then x 4 else bodies x 4 placements; FOR: (16 literal bound pairs + 5 symbolic) x 9 "
             "bodies x 3 placements x 3 nestings" + ("; bound pairs over {-3..3,5,8}^2; 8 two-level placements" if tier == "thorough" else ""))
 
 
